@@ -1,5 +1,5 @@
 (* C19 semantic read-back, ClassDiagram.LoadAndTest: given what the object builders make of the element blobs (goal_class,
-   goal_package, goal_inh), loading the rows of a semantic class diagram gives the specified objects: type dispatch,
+   goal_package, goal_inh, goal_assoc), loading the rows of a semantic class diagram gives the specified objects: type dispatch,
    dictionaries in shape order, namespaces from the package chain, PostProjectParseFix of the inheritances. *)
 From Coq Require Import String Ascii List Bool Arith Lia.
 From KV Require Import Lib.Str Lib.ODict Model.Vpp Model.VppWriter Model.Uml Model.UmlBlob Model.UmlWriter Model.UmlSem
@@ -157,6 +157,8 @@ Definition pkg_entries {V : Type} (f : spackage -> V) (l : list (string * selem)
   flat_map (fun se => match snd se with EPackage p => [(sk_id p, f p)] | _ => [] end) l.
 Definition inh_entries {V : Type} (f : sinh -> V) (l : list (string * selem)) : list (string * V) :=
   flat_map (fun se => match snd se with EInh i => [(si_id i, f i)] | _ => [] end) l.
+Definition assoc_entries {V : Type} (f : sassoc -> V) (l : list (string * selem)) : list (string * V) :=
+  flat_map (fun se => match snd se with EAssoc x => [(sx_id x, f x)] | _ => [] end) l.
 Definition paths_in (l : list (string * selem)) : list (list string) :=
   flat_map (fun se => match snd se with EPackage p => sk_paths p | _ => [] end) l.
 
@@ -176,7 +178,7 @@ Lemma lookup_cls_entries : forall (V : Type) (f : sclass -> V) l id,
 Proof.
   intros V f l id. induction l as [|[sid e] r IH]; [reflexivity|].
   unfold cls_entries, class_of_in in *. cbn [flat_map find snd].
-  destruct e as [c|p|i|a b c0 d e0]; cbn [app]; try exact IH.
+  destruct e as [c|p|i|x|a b c0 d e0]; cbn [app]; try exact IH.
   cbn [lookup]. rewrite (String.eqb_sym (sc_id c) id). destruct (String.eqb id (sc_id c)); [reflexivity | exact IH].
 Qed.
 
@@ -185,7 +187,7 @@ Lemma lookup_pkg_entries : forall (V : Type) (f : spackage -> V) l id,
 Proof.
   intros V f l id. induction l as [|[sid e] r IH]; [reflexivity|].
   unfold pkg_entries, pkg_of_in in *. cbn [flat_map find snd].
-  destruct e as [c|p|i|a b c0 d e0]; cbn [app]; try exact IH.
+  destruct e as [c|p|i|x|a b c0 d e0]; cbn [app]; try exact IH.
   cbn [lookup]. rewrite (String.eqb_sym (sk_id p) id). destruct (String.eqb id (sk_id p)); [reflexivity | exact IH].
 Qed.
 
@@ -296,7 +298,7 @@ Qed.
 
 Lemma at_shape : forall (D : sdiagram) se, NoDup (map sid_of (sd_shapes D)) -> In se (sd_shapes D) ->
   get_model_element (cmelem_rows (tree_of D)) (elem_id (snd se)) = Some (velem_of (melem_of_welem (welem_of (snd se))))
-  /\ struct_of (tree_of D) (velem_of (melem_of_welem (welem_of (snd se)))) = Some (top_pv (we_node (welem_of (snd se)))).
+  /\ struct_of (tree_of D) (velem_of (melem_of_welem (welem_of (snd se)))) = Some (top_pv_c (we_node (welem_of (snd se)))).
 Proof.
   intros D se Hnd Hin. pose proof (sl_find_unique _ sid_of _ se Hnd Hin) as F. split.
   - rewrite g_find. change (elem_id (snd se)) with (sid_of se). rewrite F. reflexivity.
@@ -304,6 +306,30 @@ Proof.
     change (ve_id (velem_of (melem_of_welem (welem_of (snd se))))) with (node_id (we_node (welem_of (snd se)))).
     rewrite node_id_welem. rewrite find_drawn. change (elem_id (snd se)) with (sid_of se). rewrite F. reflexivity.
 Qed.
+
+(* the header of a class / package / inheritance row holds no colon: top_pv_c is top_pv there *)
+Lemma sl_txt_textok : forall s, txt s = true -> textok s = true.
+Proof.
+  intros s H. unfold txt in H. apply andb_true_iff in H. destruct H as [H _]. apply andb_true_iff in H. destruct H as [H _].
+  apply andb_true_iff in H. destruct H as [H H3]. apply andb_true_iff in H. destruct H as [H1 H2].
+  unfold textok. rewrite H1, H2, H3. reflexivity.
+Qed.
+
+Lemma sl_headok : forall id nm ty, ident id = true ->
+  match nm with Some s => txt s && no_char ":" s | None => true end = true -> ident ty = true -> headok id nm ty = true.
+Proof.
+  intros id nm ty Hi Hn Ht. unfold ident in Hi, Ht.
+  apply andb_true_iff in Hi. destruct Hi as [Hi I3]. apply andb_true_iff in Hi. destruct Hi as [I1 I2].
+  apply andb_true_iff in Ht. destruct Ht as [Ht T3]. apply andb_true_iff in Ht. destruct Ht as [T1 T2].
+  unfold headok. rewrite (sl_txt_textok _ I1), I2, I3, (sl_txt_textok _ T1), T2, T3.
+  destruct nm as [s|]; [|reflexivity]. apply andb_true_iff in Hn. destruct Hn as [N1 N2].
+  rewrite (sl_txt_textok _ N1), N2. reflexivity.
+Qed.
+
+Lemma sl_top_plain : forall id nm ty its tl, ident id = true ->
+  match nm with Some s => txt s && no_char ":" s | None => true end = true -> ident ty = true ->
+  top_pv_c (WNode id nm ty its tl) = top_pv (WNode id nm ty its tl).
+Proof. intros id nm ty its tl Hi Hn Ht. apply top_pv_c_plain. apply sl_headok; assumption. Qed.
 
 (* ---------------------------------------------------------------- the type dispatch of LoadAndTest *)
 
@@ -343,6 +369,17 @@ Proof.
     cbv iota. cbn [orb]. rewrite Hp. reflexivity.
 Qed.
 
+Lemma load_elem_assoc : forall g (P : velem -> option UmlBlob.pv) d e mid v a0,
+  de_model e = Some mid -> g mid = Some v -> ve_type v = "Association" -> parse_association g P v = Some a0 ->
+  load_elem g P (Some d) e
+  = Some {| rd_classes := rd_classes d; rd_packages := rd_packages d; rd_assocs := upsert String.eqb (ve_id v) a0 (rd_assocs d); rd_inhs := rd_inhs d |}.
+Proof.
+  intros g P d e mid v a0 Hm Hg Ht Hp. unfold load_elem. cbn [bind]. rewrite Hm. cbn [bind]. rewrite Hg. cbn [bind].
+  rewrite Ht. change (String.eqb "Association" "Class") with false. change (String.eqb "Association" "Package") with false.
+  change (String.eqb "Association" "Association") with true. cbv iota.
+  rewrite Hp. reflexivity.
+Qed.
+
 Lemma load_elem_other : forall g (P : velem -> option UmlBlob.pv) d e mid v,
   de_model e = Some mid -> g mid = Some v ->
   existsb (String.eqb (ve_type v)) ["Class"; "Package"; "Association"; "Realization"; "Generalization"] = false ->
@@ -362,10 +399,11 @@ Definition shape_ok (D : sdiagram) (se : string * selem) : bool :=
   | EClass c => class_ok D c
   | EPackage p => package_ok D p
   | EInh i => inh_ok D i
-  | EOther id nm ty _ noise =>
-      ident id && match nm with Some n => txt n && no_char ":" n | None => true end && ident ty
+  | EAssoc x => assoc_ok D x
+  | EOther id nm ty _ nl noise =>
+      nl_ok nl && ident id && match nm with Some n => txt n && no_char ":" n | None => true end && ident ty
       && negb (existsb (String.eqb ty) ["Class"; "Package"; "Association"; "Realization"; "Generalization"])
-      && layout_ok (fun _ => None) noise
+      && layout_ok (fun _ => None) noise && inerts_ok KNone noise
   end.
 
 Lemma sok_split : forall D, sdiagram_ok D = true ->
@@ -373,7 +411,9 @@ Lemma sok_split : forall D, sdiagram_ok D = true ->
 Proof.
   intros D H. unfold sdiagram_ok in H. apply andb_true_iff in H. destruct H as [H H4]. apply andb_true_iff in H. destruct H as [H H3].
   apply andb_true_iff in H. destruct H as [H1 _].
-  split; [exact H1|]. split; [exact (sl_nodups_NoDup _ H3) | exact (sl_nodups_NoDup _ H4)].
+  split; [|split; [exact (sl_nodups_NoDup _ H3) | exact (sl_nodups_NoDup _ H4)]].
+  apply forallb_forall. intros se Hse. rewrite forallb_forall in H1. specialize (H1 se Hse).
+  apply andb_true_iff in H1. destruct H1 as [H1 _]. exact H1.
 Qed.
 
 (* what LoadAndTest does with one shape *)
@@ -385,14 +425,16 @@ Definition step (D : sdiagram) (d : rdiagram) (se : string * selem) : rdiagram :
                      rd_assocs := rd_assocs d; rd_inhs := rd_inhs d |}
   | EInh i => {| rd_classes := rd_classes d; rd_packages := rd_packages d; rd_assocs := rd_assocs d;
                  rd_inhs := upsert String.eqb (si_id i) (rinh0 D i (si_real i)) (rd_inhs d) |}
-  | EOther _ _ _ _ _ => d
+  | EAssoc x => {| rd_classes := rd_classes d; rd_packages := rd_packages d;
+                   rd_assocs := upsert String.eqb (sx_id x) (rassoc_of D x) (rd_assocs d); rd_inhs := rd_inhs d |}
+  | EOther _ _ _ _ _ _ => d
   end.
 
-Lemma load_elem_step : goal_class -> goal_package -> goal_inh ->
+Lemma load_elem_step : goal_class -> goal_package -> goal_inh -> goal_assoc ->
   forall (D : sdiagram) se e d, sdiagram_ok D = true -> In se (sd_shapes D) -> de_model e = Some (elem_id (snd se)) ->
   load_elem (get_model_element (cmelem_rows (tree_of D))) (struct_of (tree_of D)) (Some d) e = Some (step D d se).
 Proof.
-  intros GC GP GI D se e d Hok Hin Hm.
+  intros GC GP GI GA D se e d Hok Hin Hm.
   destruct (sok_split D Hok) as [Hsh [Hnd _]].
   destruct (at_shape D se Hnd Hin) as [Hg HP].
   rewrite forallb_forall in Hsh. specialize (Hsh se Hin). unfold shape_ok in Hsh.
@@ -401,24 +443,45 @@ Proof.
   assert (Hty : ve_type v = node_type (we_node (welem_of (snd se)))) by (subst v; reflexivity).
   assert (Hid : ve_id v = elem_id (snd se)) by (subst v; exact (node_id_welem (snd se))).
   assert (Hnm : ve_name v = elem_name (snd se)) by (subst v; exact (node_name_welem (snd se))).
-  clear Ev. unfold step. destruct (snd se) as [c|p|i|id nm ty par noise].
+  clear Ev. unfold step. destruct (snd se) as [c|p|i|x|id nm ty par nl noise].
   - change (node_type (we_node (welem_of (EClass c)))) with "Class" in Hty.
     change (we_node (welem_of (EClass c))) with (tree_of_class c) in HP. cbn [elem_id] in *. cbn [elem_name] in Hnm.
+    assert (Hpl : top_pv_c (tree_of_class c) = top_pv (tree_of_class c)).
+    { pose proof Hsh as Hc. unfold class_ok in Hc. do 5 (apply andb_true_iff in Hc; destruct Hc as [Hc _]).
+      apply andb_true_iff in Hc. destruct Hc as [Hc C3]. apply andb_true_iff in Hc. destruct Hc as [Hc C2].
+      apply andb_true_iff in Hc. destruct Hc as [_ C1].
+      unfold tree_of_class. apply sl_top_plain; [exact C1 | rewrite C2, C3; reflexivity | reflexivity]. }
+    rewrite Hpl in HP.
     rewrite (load_elem_class _ _ d e _ v (rclass0 D c) Hm Hg Hty (GC D _ _ v c Hgn Hsh HP Hid Hnm)). rewrite Hid. reflexivity.
   - change (node_type (we_node (welem_of (EPackage p)))) with "Package" in Hty.
     change (we_node (welem_of (EPackage p))) with (tree_of_package p) in HP. cbn [elem_id] in *. cbn [elem_name] in Hnm.
+    assert (Hpl : top_pv_c (tree_of_package p) = top_pv (tree_of_package p)).
+    { pose proof Hsh as Hc. unfold package_ok in Hc. do 3 (apply andb_true_iff in Hc; destruct Hc as [Hc _]).
+      apply andb_true_iff in Hc. destruct Hc as [Hc C2]. apply andb_true_iff in Hc. destruct Hc as [_ C1].
+      unfold tree_of_package. apply sl_top_plain; [exact C1 | | reflexivity].
+      unfold ident in C2. apply andb_true_iff in C2. destruct C2 as [C2 _].
+      apply andb_true_iff in C2. destruct C2 as [C2 C3]. rewrite C2, C3. reflexivity. }
+    rewrite Hpl in HP.
     rewrite (load_elem_package _ _ d e _ v (rpackage_of p) Hm Hg Hty (GP D _ v p Hsh HP Hid Hnm)). rewrite Hid. reflexivity.
   - change (node_type (we_node (welem_of (EInh i)))) with (if si_real i then "Realization" else "Generalization") in Hty.
     change (we_node (welem_of (EInh i))) with (tree_of_inh i) in HP. cbn [elem_id] in *.
+    assert (Hpl : top_pv_c (tree_of_inh i) = top_pv (tree_of_inh i)).
+    { pose proof Hsh as Hc. unfold inh_ok in Hc. do 6 (apply andb_true_iff in Hc; destruct Hc as [Hc _]).
+      apply andb_true_iff in Hc. destruct Hc as [_ Hc].
+      unfold tree_of_inh. apply sl_top_plain; [exact Hc | reflexivity | destruct (si_real i); reflexivity]. }
+    rewrite Hpl in HP.
     rewrite (load_elem_inh _ _ d e _ v (si_real i) (rinh0 D i (si_real i)) Hm Hg Hty (GI D _ _ v i (si_real i) Hgn Hsh HP Hid)).
     rewrite Hid. reflexivity.
-  - change (node_type (we_node (welem_of (EOther id nm ty par noise)))) with ty in Hty.
+  - change (node_type (we_node (welem_of (EAssoc x)))) with "Association" in Hty.
+    change (we_node (welem_of (EAssoc x))) with (tree_of_assoc x) in HP. cbn [elem_id] in *. cbn [elem_name] in Hnm.
+    rewrite (load_elem_assoc _ _ d e _ v (rassoc_of D x) Hm Hg Hty (GA D _ _ v x Hgn Hsh HP Hid Hnm)). rewrite Hid. reflexivity.
+  - change (node_type (we_node (welem_of (EOther id nm ty par nl noise)))) with ty in Hty.
     apply (load_elem_other _ _ d e _ v Hm Hg). rewrite Hty.
-    apply andb_true_iff in Hsh. destruct Hsh as [Hsh _]. apply andb_true_iff in Hsh. destruct Hsh as [_ Hsh].
+    do 2 (apply andb_true_iff in Hsh; destruct Hsh as [Hsh _]). apply andb_true_iff in Hsh. destruct Hsh as [_ Hsh].
     apply negb_true_iff in Hsh. exact Hsh.
 Qed.
 
-Lemma fold_load_step : goal_class -> goal_package -> goal_inh ->
+Lemma fold_load_step : goal_class -> goal_package -> goal_inh -> goal_assoc ->
   forall (D : sdiagram), sdiagram_ok D = true ->
   forall (l : list (string * selem)) d, incl l (sd_shapes D) ->
   fold_left (load_elem (get_model_element (cmelem_rows (tree_of D))) (struct_of (tree_of D)))
@@ -426,8 +489,8 @@ Lemma fold_load_step : goal_class -> goal_package -> goal_inh ->
                                de_model := Some (node_id (we_node (welem_of (snd se)))) |}) l) (Some d)
   = Some (fold_left (step D) l d).
 Proof.
-  intros GC GP GI D Hok l. induction l as [|se r IH]; intros d Hincl; [reflexivity|].
-  cbn [map fold_left]. rewrite (load_elem_step GC GP GI D se _ d Hok).
+  intros GC GP GI GA D Hok l. induction l as [|se r IH]; intros d Hincl; [reflexivity|].
+  cbn [map fold_left]. rewrite (load_elem_step GC GP GI GA D se _ d Hok).
   - apply IH. intros x Hx. apply Hincl. right. exact Hx.
   - apply Hincl. left. reflexivity.
   - cbn [de_model]. rewrite node_id_welem. reflexivity.
@@ -441,29 +504,33 @@ Proof. intros D. unfold cdelem_rows, tree_of. cbn [wd_drawn wd_id]. rewrite map_
 
 (* the dictionaries after all shapes: in shape order *)
 Lemma fold_step_entries : forall (D : sdiagram) (l : list (string * selem)) d, NoDup (map sid_of l) ->
-  (forall x, In x (map sid_of l) -> ~ In x (map fst (rd_classes d)) /\ ~ In x (map fst (rd_packages d)) /\ ~ In x (map fst (rd_inhs d))) ->
+  (forall x, In x (map sid_of l) -> ~ In x (map fst (rd_classes d)) /\ ~ In x (map fst (rd_packages d)) /\ ~ In x (map fst (rd_inhs d))
+             /\ ~ In x (map fst (rd_assocs d))) ->
   fold_left (step D) l d
   = {| rd_classes := (rd_classes d ++ cls_entries (rclass0 D) l)%list; rd_packages := (rd_packages d ++ pkg_entries rpackage_of l)%list;
-       rd_assocs := rd_assocs d; rd_inhs := (rd_inhs d ++ inh_entries (fun i => rinh0 D i (si_real i)) l)%list |}.
+       rd_assocs := (rd_assocs d ++ assoc_entries (rassoc_of D) l)%list;
+       rd_inhs := (rd_inhs d ++ inh_entries (fun i => rinh0 D i (si_real i)) l)%list |}.
 Proof.
   intros D l. induction l as [|[sid e] r IH]; intros d Hnd Hfr.
-  - cbn [fold_left]. unfold cls_entries, pkg_entries, inh_entries. cbn [flat_map]. rewrite !app_nil_r. destruct d; reflexivity.
+  - cbn [fold_left]. unfold cls_entries, pkg_entries, inh_entries, assoc_entries. cbn [flat_map]. rewrite !app_nil_r. destruct d; reflexivity.
   - cbn [map] in Hnd. inversion Hnd as [|k ks Hni Hnd']; subst.
-    assert (Hhd := Hfr (sid_of (sid, e)) (or_introl eq_refl)). destruct Hhd as [F1 [F2 F3]].
+    assert (Hhd := Hfr (sid_of (sid, e)) (or_introl eq_refl)). destruct Hhd as [F1 [F2 [F3 F4]]].
     assert (Hne : forall x, In x (map sid_of r) -> x <> sid_of (sid, e)) by (intros x Hx E; subst x; exact (Hni Hx)).
     cbn [fold_left]. rewrite IH; [|exact Hnd'|].
-    + unfold step, cls_entries, pkg_entries, inh_entries. cbn [flat_map snd]. unfold sid_of in F1, F2, F3. cbn [snd] in F1, F2, F3.
-      destruct e; cbn [elem_id] in F1, F2, F3; cbn [rd_classes rd_packages rd_assocs rd_inhs app].
+    + unfold step, cls_entries, pkg_entries, inh_entries, assoc_entries. cbn [flat_map snd]. unfold sid_of in F1, F2, F3, F4. cbn [snd] in F1, F2, F3, F4.
+      destruct e; cbn [elem_id] in F1, F2, F3, F4; cbn [rd_classes rd_packages rd_assocs rd_inhs app].
       * rewrite (upsert_fresh _ _ _ _ F1), <- app_assoc. reflexivity.
       * rewrite (upsert_fresh _ _ _ _ F2), <- app_assoc. reflexivity.
       * rewrite (upsert_fresh _ _ _ _ F3), <- app_assoc. reflexivity.
+      * rewrite (upsert_fresh _ _ _ _ F4), <- app_assoc. reflexivity.
       * reflexivity.
-    + intros x Hx. specialize (Hne x Hx). destruct (Hfr x (or_intror Hx)) as [G1 [G2 G3]].
+    + intros x Hx. specialize (Hne x Hx). destruct (Hfr x (or_intror Hx)) as [G1 [G2 [G3 G4]]].
       unfold step, sid_of in *. cbn [snd] in *.
-      destruct e; cbn [elem_id rd_classes rd_packages rd_inhs] in *.
+      destruct e; cbn [elem_id rd_classes rd_packages rd_inhs rd_assocs] in *.
       * rewrite (upsert_fresh _ _ _ _ F1), map_app, in_app_iff. cbn [map fst In]. intuition congruence.
       * rewrite (upsert_fresh _ _ _ _ F2), map_app, in_app_iff. cbn [map fst In]. intuition congruence.
       * rewrite (upsert_fresh _ _ _ _ F3), map_app, in_app_iff. cbn [map fst In]. intuition congruence.
+      * rewrite (upsert_fresh _ _ _ _ F4), map_app, in_app_iff. cbn [map fst In]. intuition congruence.
       * intuition.
 Qed.
 
@@ -607,9 +674,9 @@ Lemma all_paths_good : forall D : sdiagram, sdiagram_ok D = true -> forall p, In
 Proof.
   intros D Hok p Hp. destruct (sok_split D Hok) as [Hsh [Hnd _]]. rewrite forallb_forall in Hsh.
   unfold all_paths in Hp. apply in_flat_map in Hp. destruct Hp as [[sid0 e0] [Hin0 Hp]]. cbn [snd] in Hp.
-  destruct e0 as [c|k0|i|a b c0 d e1]; try (destruct Hp).
+  destruct e0 as [c|k0|i|x|a b c0 d e1]; try (destruct Hp).
   pose proof (Hsh _ Hin0) as Hk0. unfold shape_ok in Hk0. cbn [snd] in Hk0. unfold package_ok in Hk0.
-  apply andb_true_iff in Hk0. destruct Hk0 as [Hk0 _]. apply andb_true_iff in Hk0. destruct Hk0 as [_ Hk0].
+  do 2 (apply andb_true_iff in Hk0; destruct Hk0 as [Hk0 _]). apply andb_true_iff in Hk0. destruct Hk0 as [_ Hk0].
   rewrite forallb_forall in Hk0. specialize (Hk0 p Hp).
   apply andb_true_iff in Hk0. destruct Hk0 as [Hk0 Hpk]. apply andb_true_iff in Hk0. destruct Hk0 as [Hne Hid].
   split; [|split].
@@ -622,7 +689,7 @@ Proof.
     split.
     + pose proof (name_of_shape D (sid, EPackage k) Hnd Hin) as Hn. cbn [snd elem_id elem_name] in Hn. rewrite Eid in Hn. rewrite Hn. reflexivity.
     + pose proof (Hsh _ Hin) as Hk1. unfold shape_ok in Hk1. cbn [snd] in Hk1. unfold package_ok in Hk1.
-      apply andb_true_iff in Hk1. destruct Hk1 as [Hk1 _]. apply andb_true_iff in Hk1. destruct Hk1 as [Hk1 _].
+      do 3 (apply andb_true_iff in Hk1; destruct Hk1 as [Hk1 _]).
       apply andb_true_iff in Hk1. destruct Hk1 as [_ Hk1]. exact Hk1.
 Qed.
 
@@ -636,12 +703,12 @@ Qed.
 Lemma set_ns_rclass_of : forall (D : sdiagram) c, set_ns (rclass0 D c) (ns_of D (sc_id c)) = rclass_of D c.
 Proof. intros D c. unfold rclass0. rewrite set_ns_twice. reflexivity. Qed.
 
-Lemma namespaces_shapes : forall D : sdiagram, sdiagram_ok D = true ->
+Lemma namespaces_shapes : forall D : sdiagram, sdiagram_ok D = true -> forall asc : list (string * rassoc),
   namespaces {| rd_classes := cls_entries (rclass0 D) (sd_shapes D); rd_packages := pkg_entries rpackage_of (sd_shapes D);
-                rd_assocs := []; rd_inhs := inh_entries (fun i => rinh0 D i (si_real i)) (sd_shapes D) |}
+                rd_assocs := asc; rd_inhs := inh_entries (fun i => rinh0 D i (si_real i)) (sd_shapes D) |}
   = Some (cls_entries (rclass_of D) (sd_shapes D)).
 Proof.
-  intros D Hok. destruct (sok_split D Hok) as [_ [Hnd Hlp]].
+  intros D Hok asc. destruct (sok_split D Hok) as [_ [Hnd Hlp]].
   rewrite namespaces_flat. cbn [rd_packages rd_classes]. rewrite pkg_paths.
   change (paths_in (sd_shapes D)) with (all_paths D).
   assert (E0 : cls_entries (rclass0 D) (sd_shapes D) = apply_ns (fun _ => "") (cls_entries (rclass0 D) (sd_shapes D))).
@@ -675,16 +742,16 @@ Qed.
 
 (* ---------------------------------------------------------------- the whole of LoadAndTest *)
 
-Lemma load_semantic : goal_class -> goal_package -> goal_inh ->
+Lemma load_semantic : goal_class -> goal_package -> goal_inh -> goal_assoc ->
   forall S : sdiagram, sdiagram_ok S = true ->
   load_gen (get_model_element (cmelem_rows (tree_of S))) (struct_of (tree_of S)) (cdelem_rows (tree_of S)) = Some (rdiagram_of S).
 Proof.
-  intros GC GP GI D Hok. destruct (sok_split D Hok) as [_ [Hnd _]].
+  intros GC GP GI GA D Hok. destruct (sok_split D Hok) as [_ [Hnd _]].
   unfold load_gen. rewrite cdelem_rows_tree.
-  rewrite (fold_load_step GC GP GI D Hok (sd_shapes D) _ (incl_refl _)).
-  rewrite (fold_step_entries D (sd_shapes D) _ Hnd) by (intros x _; cbn [rd_classes rd_packages rd_inhs map]; intuition).
+  rewrite (fold_load_step GC GP GI GA D Hok (sd_shapes D) _ (incl_refl _)).
+  rewrite (fold_step_entries D (sd_shapes D) _ Hnd) by (intros x _; cbn [rd_classes rd_packages rd_inhs rd_assocs map]; intuition).
   cbn [bind rd_classes rd_packages rd_assocs rd_inhs app].
-  rewrite (namespaces_shapes D Hok). cbn [bind].
+  rewrite (namespaces_shapes D Hok). cbn [bind rd_classes rd_packages rd_assocs rd_inhs].
   rewrite (fix_inh_entries D _ (sd_shapes D) (fix_inh_shapes D)). reflexivity.
 Qed.
 
